@@ -7,6 +7,7 @@ import (
 	"encoding/base64"
 	"fmt"
 	"go/types"
+	"math"
 	"net/url"
 	"path/filepath"
 	"sort"
@@ -1297,6 +1298,17 @@ func addFmtIntrinsics(t map[string]Intrinsic) {
 	}
 	t["errors.New"] = func(m *Machine, fr *Frame, fn *ssa.Function, a []Value) Value {
 		return m.newErrorString(a[0])
+	}
+	// math: bit-level float conversions go through unsafe pointers in the real code
+	t["math.Float64frombits"] = func(m *Machine, fr *Frame, fn *ssa.Function, a []Value) Value {
+		return math.Float64frombits(m.concretize(fr, a[0].(*Term), "float bits"))
+	}
+	t["math.Float64bits"] = func(m *Machine, fr *Frame, fn *ssa.Function, a []Value) Value {
+		return m.tf.Const(64, math.Float64bits(a[0].(float64)))
+	}
+	t["math.NaN"] = func(m *Machine, fr *Frame, fn *ssa.Function, a []Value) Value { return math.NaN() }
+	t["math.Inf"] = func(m *Machine, fr *Frame, fn *ssa.Function, a []Value) Value {
+		return math.Inf(int(int64(m.concretize(fr, a[0].(*Term), "sign"))))
 	}
 	t["errors.Is"] = func(m *Machine, fr *Frame, fn *ssa.Function, a []Value) Value {
 		err, target := a[0].(IfaceV), a[1].(IfaceV)
